@@ -282,6 +282,8 @@ var srcChunk int
 type slowSource struct {
 	data []byte
 	k    int
+	// eofWithData: the last bytes come together with io.EOF (as io.Reader allows, and iotest.DataErrReader does)
+	eofWithData bool
 }
 
 func (s *slowSource) Read(p []byte) (int, error) {
@@ -291,6 +293,9 @@ func (s *slowSource) Read(p []byte) (int, error) {
 	n := min(min(s.k, len(p)), len(s.data))
 	copy(p, s.data[:n])
 	s.data = s.data[n:]
+	if s.eofWithData && len(s.data) == 0 {
+		return n, io.EOF
+	}
 	return n, nil
 }
 
@@ -304,6 +309,8 @@ func readSessionStop(stream []byte, crc bool, sched []int, plain []byte, valid b
 	var src io.Reader = bytes.NewReader(stream)
 	if srcChunk > 0 {
 		src = &slowSource{data: stream, k: srcChunk}
+	} else if srcChunk < 0 { // pieces of -srcChunk bytes, the last of them together with io.EOF
+		src = &slowSource{data: stream, k: -srcChunk, eofWithData: true}
 	}
 	r, err := lzhuf.NewReader(src, crc)
 	plen := decl
@@ -563,7 +570,7 @@ func MainRun(args []string) int {
 				for si, sc := range scheds {
 					// the compressed stream reaches the Reader whole, byte by byte or in 3-byte pieces
 					if pi == 0 && len(in.data) <= 5000 {
-						srcChunk = []int{0, 1, 3}[(idx+si)%3]
+						srcChunk = []int{0, 1, 3, -1, -4096}[(idx+si)%5]
 					}
 					revs, _, _ := readSession(comp, crc, sc, in.data, true, true, len(in.data), nil)
 					all := append(append([]rec.Event(nil), evs...), revs...)
@@ -575,11 +582,13 @@ func MainRun(args []string) int {
 			// other ways the same input reaches the compressor: io.Copy from a source that returns data together with EOF; after
 			// another user's compression failed at its destination.  The stream must be the same, and is judged like it.
 			if len(in.data) > 0 && (in.name != "short" || idx%17 == 0) {
-				for vi, variant := range []string{"io.Copy(DataErrReader)", "after another compression failed"} {
+				for vi, variant := range []string{"io.Copy(DataErrReader)", "after another compression failed", "io.WriteString, io.Copy(strings.Reader)"} {
 					var comp []byte
 					var err error
 					if vi == 0 {
 						comp, err = compressCopy(in.data, crc)
+					} else if vi == 2 {
+						comp, err = compressStrings(in.data, crc)
 					} else {
 						otherUse(rng)
 						comp, err = safeCompress(in.data, []int{len(in.data)}, crc)
@@ -724,6 +733,29 @@ func compressCopy(data []byte, crc bool) (out []byte, err error) {
 	return b.Bytes(), nil
 }
 
+// compressStrings hands the input to the compressor as strings: io.WriteString for the first half, io.Copy from a
+// strings.Reader for the rest (both use a WriteString method if the Writer has one).
+func compressStrings(data []byte, crc bool) (out []byte, err error) {
+	defer func() {
+		if p := recover(); p != nil {
+			err = fmt.Errorf("panic: %v", p)
+		}
+	}()
+	var b bytes.Buffer
+	w := lzhuf.NewWriter(&b, crc)
+	h := len(data) / 2
+	if n, err := io.WriteString(w, string(data[:h])); err != nil || n != h {
+		return nil, fmt.Errorf("io.WriteString = %d, %v for %d bytes", n, err, h)
+	}
+	if n, err := io.Copy(w, strings.NewReader(string(data[h:]))); err != nil || int(n) != len(data)-h {
+		return nil, fmt.Errorf("io.Copy = %d, %v for %d bytes", n, err, len(data)-h)
+	}
+	if err := w.Close(); err != nil {
+		return nil, err
+	}
+	return b.Bytes(), nil
+}
+
 func safeCompress(data []byte, part []int, crc bool) (out []byte, err error) {
 	defer func() {
 		if p := recover(); p != nil {
@@ -804,8 +836,8 @@ func MainJudge(args []string) int {
 			w.Write(map[string]interface{}{"job": j.Name}, []rec.Event{{"op": "RefEncodeIncomplete"}})
 			return nil
 		}
-		for si, sc := range [][]int{{4096}, {1}, {60}, {7, 1}} {
-			srcChunk = []int{0, 1, 3, 0}[si] // the stream arrives whole, byte by byte, or in 3-byte segments
+		for si, sc := range [][]int{{4096}, {1}, {60}, {7, 1}, {4096}, {5}} {
+			srcChunk = []int{0, 1, 3, 0, -1 << 20, -2}[si] // the stream arrives whole, byte by byte, in 3-byte segments, with EOF attached to its last bytes
 			evs, _, _ := readSession(stream, true, sc, plain, true, true, len(plain), nil)
 			w.Write(map[string]interface{}{"job": j.Name, "sched": sc, "len": len(plain), "srcchunk": srcChunk}, evs)
 			srcChunk = 0
